@@ -88,7 +88,8 @@ class Facts:
         self.label(k1)
         self.add(z3.Implies(n == 1, z3.And(k == unit(k0), bm == xval(k0), sm == zval(k0))))
         self.add(z3.Implies(n == 2, z3.And(k == z3.Concat(unit(k0), unit(k1)), bm == xval(k0) * xval(k1),
-                                           sm == zval(k0) * zval(k1))))
+                                           sm == zval(k0) * zval(k1),
+                                           matvalid(k) == z3.And(matvalid(unit(k0)), matvalid(unit(k1))))))
         # head/tail unfolding for n >= 1 (used by recursive generators)
         self.used.update(["L1-mono-def", "L2-range"])
         return k
@@ -119,7 +120,8 @@ class Facts:
         self.key(t)
         self.label(k[0])
         self.add(z3.Implies(n >= 1, z3.And(k == z3.Concat(unit(k[0]), t), bmono(k) == xval(k[0]) * bmono(t),
-                                           smono(k) == zval(k[0]) * smono(t), z3.Length(t) == n - 1)))
+                                           smono(k) == zval(k[0]) * smono(t), z3.Length(t) == n - 1,
+                                           matvalid(k) == z3.And(matvalid(unit(k[0])), matvalid(t)))))
         return t
 
     def sq(self, spin, k):
